@@ -106,16 +106,27 @@ Section PrintParse.
     rewrite (IH rest (ln + 1) (add_elem NM n (fst nv) (reread NM (snd nv))) Hes). cbn [lengthN]. f_equal. lia.
   Qed.
 
+  (** what the parser needs of a printed day (a [day_ok] day without the
+      conditions on the time and on distinct names) *)
+  Definition day_printable (c : rconfig) (d : lognode) : Prop :=
+    civil_fits (rc_date c) (civ (ln_time NM d))
+    /\ Forall (fun nv => normal_name (fst nv) = true) (ln_elems NM d)
+    /\ Forall (fun mp => documented_note mp = true) (notes_of NM d)
+    /\ Forall (fun l => lengthN l < max_token) (day_lines NM c d).
+
+  Lemma day_ok_printable c d : day_ok NM c d -> day_printable c d.
+  Proof. intros [_ [H2 [H3 [_ [H5 H6]]]]]. unfold day_printable. auto. Qed.
+
   Definition cur_events (cur : option (pnode NM)) : list (event NM) :=
     match cur with Some n => [ENode n] | None => [] end.
 
   Lemma parse_loop_day c d rest ln cur :
-    heading_layout (rc_date c) = true -> day_ok NM c d ->
+    heading_layout (rc_date c) = true -> day_printable c d ->
     exists ln', parse_loop NM (day_lines NM c d ++ rest) ln cur
                 = let '(evs, last) := parse_loop NM rest ln' (Some (reread_node NM c d)) in
                   (cur_events cur ++ evs, last).
   Proof.
-    intros HL [_ [Hfit [Hnames [_ [Hnotes _]]]]].
+    intros HL [Hfit [Hnames [Hnotes _]]].
     exists (ln + 1 + lengthN (notes_of NM d) + lengthN (ln_elems NM d) + 1).
     unfold day_lines. cbn [app parse_loop]. unfold heading_line at 1.
     rewrite (classify_heading NM _ (fdate c (ln_time NM d)) _ (format_date_heading _ _ HL Hfit)).
@@ -131,7 +142,7 @@ Section PrintParse.
   Qed.
 
   Lemma parse_loop_days c L : forall ln cur,
-    heading_layout (rc_date c) = true -> Forall (day_ok NM c) L ->
+    heading_layout (rc_date c) = true -> Forall (day_printable c) L ->
     let r := parse_loop NM (flat_map (day_lines NM c) L) ln cur in
     fst r ++ cur_events (snd r) = cur_events cur ++ map (fun d => ENode (reread_node NM c d)) L.
   Proof.
@@ -180,11 +191,11 @@ Section PrintParse.
   Qed.
 
   Lemma day_lines_scannable c d :
-    heading_layout (rc_date c) = true -> day_ok NM c d ->
+    heading_layout (rc_date c) = true -> day_printable c d ->
     Forall (fun l => memb c_lf l = false) (day_lines NM c d)
     /\ Forall (fun l => l = [] \/ last_outside [c_cr] l = true) (day_lines NM c d).
   Proof.
-    intros HL [_ [Hfit [Hnames [_ [Hnotes _]]]]].
+    intros HL [Hfit [Hnames [Hnotes _]]].
     destruct (format_date_heading _ _ HL Hfit) as [Hb _].
     unfold day_lines. split.
     - constructor.
@@ -208,7 +219,7 @@ Section PrintParse.
   Qed.
 
   Lemma scan_print_output c L :
-    heading_layout (rc_date c) = true -> Forall (day_ok NM c) L ->
+    heading_layout (rc_date c) = true -> Forall (day_printable c) L ->
     scan (print_output NM c L) NoFault = (flat_map (day_lines NM c) L, ScanEOF).
   Proof.
     intros HL HF. rewrite print_output_unlines. apply scan_unlines.
@@ -219,7 +230,7 @@ Section PrintParse.
 
   (** *** the events of a printed log *)
   Lemma events_print_output c L :
-    heading_layout (rc_date c) = true -> Forall (day_ok NM c) L ->
+    heading_layout (rc_date c) = true -> Forall (day_printable c) L ->
     events NM (print_output NM c L) = map (fun d => ENode (reread_node NM c d)) L.
   Proof.
     intros HL HF. unfold events. rewrite (scan_print_output c L HL HF). cbn [fst]. unfold parse_lines.
